@@ -228,6 +228,10 @@ func sourceMemoRule(c *Ctx, rule string) {
 			key := fmt.Sprintf("%s: loop #%d over %s", fb.Name, ord, types.ExprString(rs.X))
 			bad := token.NoPos
 			ast.Inspect(rs.Body, func(m ast.Node) bool {
+				switch m.(type) {
+				case *ast.RangeStmt, *ast.ForStmt, *ast.FuncLit:
+					return false // a continue in there belongs to the inner loop, not to this one
+				}
 				is, ok := m.(*ast.IfStmt)
 				if !ok {
 					return true
